@@ -48,6 +48,25 @@ class Acc:
         return (self.violations, self.counts, self.evaluations, self.nontrivial, self.outcomes)
 
 
+def raised_in_library(exc):
+    """True when the innermost frame of the traceback is library code (hypergraphx/...), not harness code"""
+    from .choice import UnownedRandomness
+    from .core import HarnessError
+
+    if isinstance(exc, (UnownedRandomness, HarnessError, AssertionError, MemoryError)):
+        return False
+    tb = exc.__traceback__
+    last = None  # the deepest frame that belongs to the harness or to the library (frames of numpy, scipy, ... below it are ignored)
+    while tb is not None:
+        fn = tb.tb_frame.f_code.co_filename.replace("\\", "/")
+        if "/hgxmc/" in fn:
+            last = "harness"
+        elif "/hypergraphx/" in fn:
+            last = "library"
+        tb = tb.tb_next
+    return last == "library"
+
+
 def run_e4(ctx, items, worker, nchunks=None, quiet=True, budget=None, config_cap=None):
     """worker(list_of_items, Acc) -> None.  Returns merged (evaluations, nontrivial_set, outcomes_set)."""
     items = list(items)
@@ -62,11 +81,32 @@ def run_e4(ctx, items, worker, nchunks=None, quiet=True, budget=None, config_cap
         import logging
 
         logging.disable(logging.CRITICAL)
+        def one_by_one():
+            from . import corpus as C
+            from .core import Violation
+
+            for it in part:
+                try:
+                    worker([it], acc)
+                except C.BuildError as e:
+                    # valid public calls that build one of the inputs raised: reported against the property, not as a harness error
+                    acc.violations.append(Violation("build/exception", str(e), {"desc": C.show(e.desc), "detour": e.detour if not isinstance(e.detour, tuple) else list(e.detour), "build_error": True},
+                                                    len(e.desc.get("edges", ()))))
+                except Exception as e:
+                    # an exception that escapes a check is a harness error - unless it was raised INSIDE the library by a call the
+                    # check makes on every input (and that succeeds on the unchanged tree): then the library is what failed
+                    if not raised_in_library(e):
+                        raise
+                    wit = {"library_exception": True, "item": repr(it)[:2000]}
+                    if isinstance(it, dict) and "kind" in it and "edges" in it:
+                        wit["desc"] = C.show(it)
+                    acc.violations.append(Violation("library-exception/%s" % type(e).__name__, "a library call made by the check raised %s: %s (input %s)" % (type(e).__name__, e, repr(it)[:400]), wit, 0))
+
         if quiet:
             with contextlib.redirect_stdout(io.StringIO()):
-                worker(part, acc)
+                one_by_one()
         else:
-            worker(part, acc)
+            one_by_one()
         return acc.pack()
 
     ev = 0
